@@ -129,6 +129,18 @@ def run(ctx):
                            "events_validated_after_prefix_dedupe": v["events"]})
     tot["samples"].append(core.abridge([{k: r.get(k) for k in ("ev", "n", "m", "k", "signs")} for r in rows if r.get("signs")][:6], 6))
 
+    # ---------------- C. the repository's own scripted consensus tests, recorded through the step hook -----
+    traces, npass, tail = cc.record_repo_tests(ctx, binp)
+    if traces:
+        vr = cc.validate_repo_traces(ctx, traces)
+        rows_r = [r for t in traces for r in t]
+        account(vr, rows_r, "repository tests (state_test.go)")
+        cov["configs"].append({"config": "consensus/state_test.go scenarios run with -tags verif, one trace per consensus.State at the initial height",
+                               "test_functions_passed": npass, "traces": len(traces), "events": vr["events"],
+                               "note": "steps the tests make through direct calls (startTestRound, SetProposalAndBlock) are not seen by the hook and appear as conformance drift"})
+    else:
+        cov["configs"].append({"config": "repository tests", "note": "no trace recorded: " + tail[-200:]})
+
     # ---------------- B. the node inside a network: attack library + random walks, FilePV signing ----
     for (tag, powers, bi) in ((("eq0", [1, 1, 1, 1], 0),) if quick else (("eq0", [1, 1, 1, 1], 0), ("eq3", [1, 1, 1, 1], 3), ("w2", [2, 2, 1, 1], 2))):
         info3 = cc.run_driver(ctx, binp, {"mode": "info", "powers": powers, "byz": [], "maxround": 4}, "info" + tag)
